@@ -443,6 +443,9 @@ def run_normal(rep, rng, drv, tier, util):
         a2 = f(np.full((2, 3), arg))
         if np.shape(s) != () or np.shape(a2) != (2, 3) or not np.all(np.asarray(a2) == float(s)):
             rep.violate(what=f"{fn} does not map scalars to scalars / arrays elementwise", input=dict(x=arg), call=fn)
+        pts = [0.3, 0.9, 0.5, 0.01, 0.75, 0.2] if fn == "normal_ppf" else [0.3, -1.2, 0.0, 5.0, -7.5, 2.0]
+        for sh, msg in C.shape_probe(f, pts)[:1]:
+            rep.violate(what=f"{fn}: {msg}", input=dict(xs=pts), shape=list(sh), call=fn)
 
 
 # ------------------------------------------------------------------ (d) sort_by_first
